@@ -74,17 +74,17 @@ theorem counter_add_is_ringAdd (r : Agd.Ratelimit.Ring) (ivl ts : Int) :
 /-- `Backoff.isBackoff` is the model's `isBackoff` when the hit cache answers as the model's table
 does (`Get` finds an unexpired entry, `Load` is its value); `count` is unsigned, so `l.count = ↑c.count`. -/
 theorem isBackoff_tr (l : S_ratelimit_Backoff) (c : Agd.Ratelimit.Cfg) (s : Agd.Ratelimit.St)
-    (k : Agd.Ratelimit.Key) (now : Int) (key : String) (hc : l.count = (c.count : Int)) :
-    (Backoff_isBackoff l key ((), (s.hit.get k now).isSome) (((s.hit.get k now).getD 0 : Nat) : Int)).1
+    (k : Agd.Ratelimit.Key) (now : Int) (key : String) (p : AbsPtr) (hc : l.count = (c.count : Int)) :
+    (Backoff_isBackoff l key (p, (s.hit.get k now).isSome) (((s.hit.get k now).getD 0 : Nat) : Int)).1
       = Agd.Ratelimit.isBackoff c s k now := by
   unfold Backoff_isBackoff Agd.Ratelimit.isBackoff
   cases h : s.hit.get k now <;> simp [hc]
 
 /-- The look-up happens under the client's key, and the counter is read only when an entry exists. -/
-theorem isBackoff_lookup (l : S_ratelimit_Backoff) (key : String) (ok : Bool) (n : Int) :
-    (Backoff_isBackoff l key ((), ok) n).2.head? = some ("Get", [key]) ∧
-    ("Load" ∈ names (Backoff_isBackoff l key ((), ok) n).2 ↔ ok = true) ∧
-    (ok = false → (Backoff_isBackoff l key ((), ok) n).1 = false) := by
+theorem isBackoff_lookup (l : S_ratelimit_Backoff) (key : String) (p : AbsPtr) (ok : Bool) (n : Int) :
+    (Backoff_isBackoff l key (p, ok) n).2.head? = some ("Get", [key]) ∧
+    ("Load" ∈ names (Backoff_isBackoff l key (p, ok) n).2 ↔ ok = true) ∧
+    (ok = false → (Backoff_isBackoff l key (p, ok) n).1 = false) := by
   cases ok <;> simp [Backoff_isBackoff, names]
 
 /-- The configuration of the model as the translated `Backoff` structure sees it. -/
@@ -138,15 +138,15 @@ theorem isRateLimited_counts_with_model_limits (l : S_ratelimit_Backoff) (c : Ag
 /-- The verdict of `hasHitRateLimit` is the request counter's (`Add`), which is asked exactly once,
 whether the counter was found or freshly made. -/
 theorem hasHit_is_counter_verdict (l : S_ratelimit_Backoff) (key : String) (count ivl : Int) (ok above : Bool)
-    (old new : Option S_ratelimit_RequestCounter) :
-    let r := Backoff_hasHitRateLimit l key count ivl ((), ok) old above new
+    (old new : Option S_ratelimit_RequestCounter) (p : AbsPtr) :
+    let r := Backoff_hasHitRateLimit l key count ivl (p, ok) old above new
     r.1 = above ∧ (names r.2).count "Add" = 1 := by
   cases ok <;> cases above <;> simp [Backoff_hasHitRateLimit, names]
 
 /-- A request above the limit is one more backoff hit of the same subnet key; one within the limit is not. -/
 theorem hasHit_incBackoff_iff_above (l : S_ratelimit_Backoff) (key : String) (count ivl : Int) (ok above : Bool)
-    (old new : Option S_ratelimit_RequestCounter) :
-    let r := Backoff_hasHitRateLimit l key count ivl ((), ok) old above new
+    (old new : Option S_ratelimit_RequestCounter) (p : AbsPtr) :
+    let r := Backoff_hasHitRateLimit l key count ivl (p, ok) old above new
     (("incBackoff", [key]) ∈ r.2 ↔ above = true) ∧ ("incBackoff" ∈ names r.2 ↔ above = true) ∧
     (above = true → r.2.getLast? = some ("incBackoff", [key])) := by
   cases ok <;> cases above <;> simp [Backoff_hasHitRateLimit, names]
@@ -154,8 +154,8 @@ theorem hasHit_incBackoff_iff_above (l : S_ratelimit_Backoff) (key : String) (co
 /-- A subnet without a counter gets a new one with exactly the limit and interval passed in, stored
 under the same key *before* the request is added; an existing counter is reused and not replaced. -/
 theorem hasHit_counter_creation (l : S_ratelimit_Backoff) (key : String) (count ivl : Int) (ok above : Bool)
-    (old new : Option S_ratelimit_RequestCounter) :
-    let r := Backoff_hasHitRateLimit l key count ivl ((), ok) old above new
+    (old new : Option S_ratelimit_RequestCounter) (p : AbsPtr) :
+    let r := Backoff_hasHitRateLimit l key count ivl (p, ok) old above new
     r.2.head? = some ("Get", [key]) ∧
     (ok = false → r.2.take 4 = [("Get", [key]), ("NewRequestCounter", [toString count, toString ivl]),
         ("SetDefault", [key, "_"]), ("Add", ["_"])]) ∧
@@ -164,8 +164,8 @@ theorem hasHit_counter_creation (l : S_ratelimit_Backoff) (key : String) (count 
 
 /-- `incBackoff` adds exactly one to the subnet's hit counter, looked up under the same key; the entry is
 (re)stored — with a fresh lifetime — only when none existed. -/
-theorem incBackoff_effects (l : S_ratelimit_Backoff) (key : String) (ok : Bool) :
-    let tr := Backoff_incBackoff l key ((), ok)
+theorem incBackoff_effects (l : S_ratelimit_Backoff) (key : String) (p : AbsPtr) (ok : Bool) :
+    let tr := Backoff_incBackoff l key (p, ok)
     tr.head? = some ("Get", [key]) ∧ tr.count ("Add", [toString (1 : Int)]) = 1 ∧ (names tr).count "Add" = 1 ∧
     (("SetDefault", [key, "_"]) ∈ tr ↔ ok = false) ∧ ("SetDefault" ∈ names tr ↔ ok = false) := by
   cases ok <;> simp [Backoff_incBackoff, names]
@@ -215,25 +215,27 @@ theorem validateAddr_ok_iff (valid : Bool) : validateAddr valid = none ↔ valid
 
 /-- The protocol gate: limiting applies iff the protocol list is empty or contains the server's protocol
 (the model's `enabled` flag of `serveLib`). -/
-theorem isEnabledForProto_tr (mw : S_ratelimit_Middleware) (n : Int) (si : Option S_dnsserver_ServerInfo) (has : Bool) :
-    Middleware_isEnabledForProto mw n si has = (decide (n = 0) || has) := by
-  by_cases h : n = 0 <;> simp [Middleware_isEnabledForProto, h]
+theorem isEnabledForProto_tr (mw : S_ratelimit_Middleware) (si : Option S_dnsserver_ServerInfo) (has : Bool) :
+    Middleware_isEnabledForProto mw si has = (mw.protos.isEmpty || has) := by
+  cases h : mw.protos <;> simp [Middleware_isEnabledForProto, h] <;> omega
 
 /-- Every environment of `mwHandler.ServeDNS`, bundled. -/
 structure LibEnv where
+  nextH : AbsPtr
   enabled : Bool
   nextOff : Option String
+  raddr : AbsPtr
   port : Int
   lim : Bool × Bool × Option String
   errf : Option String
   nextAllow : Option String
   nw : Option S_dnsserver_NonWriterResponseWriter
   next : Option String
-  respNil : Bool
+  msg : AbsPtr
   write : Option String
 
 def libServe (mh : S_ratelimit_mwHandler) (e : LibEnv) : Option String × List (String × List String) :=
-  mwHandler_ServeDNS mh e.enabled e.nextOff e.port e.lim e.errf e.nextAllow e.nw e.next e.respNil e.write
+  mwHandler_ServeDNS mh e.nextH e.enabled e.nextOff e.raddr () e.port () e.lim e.errf e.nextAllow e.nw e.next e.msg e.write
 
 /-- A protocol that is not rate limited goes straight to the next handler; the limiter is not consulted. -/
 theorem lib_other_proto_passthrough (mh : S_ratelimit_mwHandler) (e : LibEnv) (h : e.enabled = false) :
@@ -263,7 +265,7 @@ theorem lib_allowlisted_served_uncounted (mh : S_ratelimit_mwHandler) (e : LibEn
 /-- A passed query: the limiter is asked first, the next handler runs, its response is weighed
 (`CountResponses`) and then written; the result is the write's. -/
 theorem lib_pass_counted_then_written (mh : S_ratelimit_mwHandler) (e : LibEnv) (h : e.enabled = true)
-    (hp : e.port ≠ 0) (hl : e.lim = (false, false, none)) (hn : e.next = none) (hr : e.respNil = false) :
+    (hp : e.port ≠ 0) (hl : e.lim = (false, false, none)) (hn : e.next = none) (hr : e.msg = true) :
     (libServe mh e).1 = e.write ∧
       names (libServe mh e).2 = ["IsRateLimited", "ServeDNS", "CountResponses", "WriteMsg"] := by
   simp [libServe, mwHandler_ServeDNS, h, hp, hl, hn, hr, names]
@@ -273,7 +275,7 @@ theorem lib_write_only_after_pass (mh : S_ratelimit_mwHandler) (e : LibEnv)
     (hw : "WriteMsg" ∈ names (libServe mh e).2 ∨ "CountResponses" ∈ names (libServe mh e).2) :
     e.enabled = true ∧ e.port ≠ 0 ∧ e.lim = (false, false, none) ∧
       (names (libServe mh e).2).head? = some "IsRateLimited" := by
-  obtain ⟨en, no, port, ⟨d, a, er⟩, errf, na, nw, nx, rn, wr⟩ := e
+  obtain ⟨nh, en, no, ra, port, ⟨d, a, er⟩, errf, na, nw, nx, rn, wr⟩ := e
   revert hw
   simp only [libServe, mwHandler_ServeDNS]
   cases en <;> cases d <;> cases a <;> cases er <;> cases nx <;> cases rn <;>
@@ -295,10 +297,10 @@ and the next handler produces a response. -/
 theorem lib_effect_is_model (mh : S_ratelimit_mwHandler) (e : LibEnv) (c : Agd.Ratelimit.Cfg)
     (g : Agd.Ratelimit.St) (now tick : Int) (a : Agd.Ratelimit.Addr) (qt len : Nat)
     (hl : e.lim = verdictTuple (Agd.Ratelimit.isRateLimited c g now a qt).2)
-    (hn : e.next = none) (hr : e.respNil = false) :
+    (hn : e.next = none) (hr : e.msg = true) :
     effectOf (libServe mh e).2 =
       (Agd.Ratelimit.serveLib c e.enabled (decide (e.port = 0)) g now tick a qt (some len)).2 := by
-  obtain ⟨en, no, port, lim, errf, na, nw, nx, rn, wr⟩ := e
+  obtain ⟨nh, en, no, ra, port, lim, errf, na, nw, nx, rn, wr⟩ := e
   simp only at hl hn hr
   subst hn hr hl
   unfold Agd.Ratelimit.serveLib Agd.Ratelimit.serveGlobal
@@ -332,12 +334,12 @@ structure ProfEnv where
   nw : Option S_dnsserver_NonWriterResponseWriter
   next : Option String
   errf1 : Option String
-  respNil : Bool
+  msg : AbsPtr
   write : Option String
   errf2 : Option String
 
 def profServe (mw : S_ratelimitmw_Middleware) (ri : Option S_agd_RequestInfo) (e : ProfEnv) :=
-  serveWithProfileRatelimiting mw ri e.dev e.check e.nw e.next e.errf1 e.respNil e.write e.errf2
+  serveWithProfileRatelimiting mw ri e.dev e.check e.nw e.next e.errf1 e.msg e.write e.errf2
 
 /-- The values of `agd.RatelimitResult` as the source defines them (`iota + 1`). -/
 def resPass : Int := 1
@@ -370,7 +372,7 @@ theorem prof_useGlobal_defers (mw : S_ratelimitmw_Middleware) (ri : Option S_agd
 /-- The profile's own limit applies **instead of** the global one: on `Pass` the response is weighed on
 the *profile's* limiter (`prof.Ratelimiter`), written, and the query is finished without the global limiter. -/
 theorem prof_pass_counts_on_profile_limiter (mw : S_ratelimitmw_Middleware) (ri : Option S_agd_RequestInfo) (e : ProfEnv)
-    (h : e.dev.1 ≠ none) (hc : e.check = resPass) (hn : e.next = none) (hr : e.respNil = false) (hw : e.write = none) :
+    (h : e.dev.1 ≠ none) (hc : e.check = resPass) (hn : e.next = none) (hr : e.msg = true) (hw : e.write = none) :
     ∃ tr, profServe mw ri e = some (true, none, tr) ∧
       names tr = ["Ratelimiter.Check", "next.ServeDNS", "Ratelimiter.CountResponses", "rw.WriteMsg"] := by
   cases hd : e.dev.1 with
@@ -382,8 +384,16 @@ theorem prof_no_panic_iff (mw : S_ratelimitmw_Middleware) (ri : Option S_agd_Req
     profServe mw ri e ≠ none ↔ (e.dev.1 = none ∨ e.check = resPass ∨ e.check = resDrop ∨ e.check = resUseGlobal) := by
   obtain ⟨⟨p, d⟩, ck, nw, nx, e1, rn, wr, e2⟩ := e
   simp only [profServe, serveWithProfileRatelimiting, resPass, resDrop, resUseGlobal]
-  cases p <;> by_cases h1 : ck = 1 <;> by_cases h2 : ck = 2 <;> by_cases h3 : ck = 3 <;>
-    cases nx <;> cases rn <;> cases wr <;> simp [h1, h2, h3]
+  cases p with
+  | none => simp
+  | some p =>
+    by_cases h2 : ck = 2
+    · simp [h2]
+    · by_cases h3 : ck = 3
+      · simp [h3]
+      · by_cases h1 : ck = 1
+        · cases nx <;> cases rn <;> cases wr <;> simp [h1]
+        · simp [h1, h2, h3]
 
 /-- Whenever the profile flow hands the query on (`shouldReturn = false`), it has not called the next
 handler, counted or written anything — so a query is never served twice. -/
@@ -391,10 +401,17 @@ theorem prof_handoff_is_clean (mw : S_ratelimitmw_Middleware) (ri : Option S_agd
     (er : Option String) (tr : List (String × List String)) (h : profServe mw ri e = some (false, er, tr)) :
     er = none ∧ "next.ServeDNS" ∉ names tr ∧ "rw.WriteMsg" ∉ names tr ∧ "Ratelimiter.CountResponses" ∉ names tr := by
   obtain ⟨⟨p, d⟩, ck, nw, nx, e1, rn, wr, e2⟩ := e
-  revert h
-  simp only [profServe, serveWithProfileRatelimiting]
-  cases p <;> by_cases h1 : ck = 1 <;> by_cases h2 : ck = 2 <;> by_cases h3 : ck = 3 <;>
-    cases nx <;> cases rn <;> cases wr <;> simp [h1, h2, h3, names] <;> (intro _ ht; subst ht; simp)
+  simp only [profServe, serveWithProfileRatelimiting] at h
+  cases p with
+  | none => simp at h; obtain ⟨rfl, rfl⟩ := h; simp [names]
+  | some p =>
+    by_cases h2 : ck = 2
+    · simp [h2] at h
+    · by_cases h3 : ck = 3
+      · simp [h3] at h; obtain ⟨rfl, rfl⟩ := h; simp [names]
+      · by_cases h1 : ck = 1
+        · cases nx <;> cases rn <;> cases wr <;> simp [h1] at h
+        · simp [h1, h2, h3] at h
 
 /-- A profile without a custom limit (`GlobalRatelimiter`) always answers `UseGlobal`. -/
 theorem globalRatelimiter_always_useGlobal (x : S_agd_GlobalRatelimiter) : GlobalRatelimiter_Check x = resUseGlobal := by
@@ -410,13 +427,14 @@ client, when the subnet set and the request counter answer as the model's do. -/
 theorem profile_check_tr (r : S_agd_DefaultRatelimiter) (p : Agd.Ratelimit.ProfLim) (now : Int) (a : Agd.Ratelimit.Addr) :
     (DefaultRatelimiter_Check r (p.subnets.length : Int) (p.subnets.any (fun s => s.contains a)) (p.ctr.add now).2).1 =
       presCode (p.check now a).2 := by
+  have hl : decide ((p.subnets.length : Int) > 0) = !p.subnets.isEmpty := by
+    cases p.subnets <;> simp <;> omega
   unfold DefaultRatelimiter_Check Agd.Ratelimit.ProfLim.check
-  cases hs : p.subnets with
-  | nil => cases hab : (p.ctr.add now).2 <;> simp [presCode, resPass, resDrop, hab]
-  | cons x xs =>
-    have : ((xs.length : Int) + 1 > 0) := by omega
-    cases hc : (Agd.Ratelimit.Prefix.contains x a || xs.any (fun s => s.contains a)) <;>
-      cases hab : (p.ctr.add now).2 <;> simp_all [presCode, resPass, resDrop, resUseGlobal]
+  rw [hl]
+  generalize p.subnets.any (fun s => s.contains a) = inSet
+  generalize p.subnets.isEmpty = emp
+  cases emp <;> cases inSet <;> cases hab : (p.ctr.add now).2 <;>
+    simp [presCode, resPass, resDrop, resUseGlobal, hab]
 
 /-- A client outside the profile's subnets is not counted against the profile's limit; everyone else is
 counted exactly once per check. -/
@@ -445,11 +463,11 @@ structure GlobEnv where
   nextAllow : Option String
   nw : Option S_dnsserver_NonWriterResponseWriter
   next : Option String
-  respNil : Bool
+  msg : AbsPtr
   write : Option String
 
 def globServe (mw : S_ratelimitmw_Middleware) (ri : Option S_agd_RequestInfo) (e : GlobEnv) :=
-  serveWithGlobalRatelimiting mw ri e.lim e.errf e.nextAllow e.nw e.next e.respNil e.write
+  serveWithGlobalRatelimiting mw ri e.lim e.errf e.nextAllow e.nw e.next e.msg e.write
 
 /-- Global flow, dropped: no response, nothing served or counted. -/
 theorem glob_drop_no_response (mw : S_ratelimitmw_Middleware) (ri : Option S_agd_RequestInfo) (e : GlobEnv) (al : Bool)
@@ -467,13 +485,34 @@ theorem glob_allowlisted_served_uncounted (mw : S_ratelimitmw_Middleware) (ri : 
 
 /-- Global flow, passed: asked, served into a buffer, weighed on the *global* limiter, then written. -/
 theorem glob_pass_counted_then_written (mw : S_ratelimitmw_Middleware) (ri : Option S_agd_RequestInfo) (e : GlobEnv)
-    (hl : e.lim = (false, false, none)) (hn : e.next = none) (hr : e.respNil = false) :
+    (hl : e.lim = (false, false, none)) (hn : e.next = none) (hr : e.msg = true) :
     (globServe mw ri e).1 = e.write ∧ names (globServe mw ri e).2 =
       ["limiter.IsRateLimited", "next.ServeDNS", "limiter.CountResponses", "rw.WriteMsg"] := by
   simp [globServe, serveWithGlobalRatelimiting, hl, hn, hr, names]
 
 example : (Backoff_IsRateLimited ⟨1024, 1000, 300, 10, 24, 3000, 10, 48, true⟩ none 1 (false, none) "k" false true true).1 = true := by
   decide
+
+/-! ## Non-vacuity of the hypotheses -/
+
+example : CfgMatches ⟨1024, 1000, 300, 10, 24, 3000, 10, 48, true⟩
+    { count := 1000, period := 60, duration := 60, est := 1024, v4count := 300, v4ivl := 10, v4len := 24,
+      v6count := 3000, v6ivl := 10, v6len := 48, refuseAny := true, allow := [] } := by
+  simp [CfgMatches]
+
+example : Backoff_CountResponses ⟨1024, 1000, 300, 10, 24, 3000, 10, 48, true⟩ 3000 =
+    some [("IsRateLimited", ["_", "_", "_"]), ("IsRateLimited", ["_", "_", "_"])] := by
+  have h := countResponses_weight ⟨1024, 1000, 300, 10, 24, 3000, 10, 48, true⟩ 1024 3000 (by omega) (by omega) rfl
+  simpa [Agd.Ratelimit.respWeight] using h
+
+example : (Backoff_hasHitRateLimit ⟨1024, 1000, 300, 10, 24, 3000, 10, 48, true⟩ "1.2.3.0/24" 300 10 (false, false) none true none).2
+    = [("Get", ["1.2.3.0/24"]), ("NewRequestCounter", ["300", "10"]), ("SetDefault", ["1.2.3.0/24", "_"]), ("Add", ["_"]),
+       ("incBackoff", ["1.2.3.0/24"])] := by decide
+
+example : (libServe ⟨none⟩ ⟨true, true, none, true, 53, (true, false, none), none, none, none, none, true, none⟩) =
+    (none, [("IsRateLimited", ["_", "_", "_"]), ("OnRateLimited", ["_", "_", "_"])]) := by decide
+
+example : DefaultRatelimiter_Check ⟨none, 1024, 5⟩ 2 false true = (resUseGlobal, []) := by decide
 
 end Agd.Tie.TrC09
 
@@ -483,3 +522,42 @@ end Agd.Tie.TrC09
 #print axioms Agd.Tie.TrC09.refuse_any_for_everyone
 #print axioms Agd.Tie.TrC09.counted_with_family_limits
 #print axioms Agd.Tie.TrC09.counter_add
+#print axioms Agd.Tie.TrC09.counter_add_is_ringAdd
+#print axioms Agd.Tie.TrC09.isBackoff_tr
+#print axioms Agd.Tie.TrC09.isBackoff_lookup
+#print axioms Agd.Tie.TrC09.isRateLimited_tr
+#print axioms Agd.Tie.TrC09.isRateLimited_counts_with_model_limits
+#print axioms Agd.Tie.TrC09.hasHit_is_counter_verdict
+#print axioms Agd.Tie.TrC09.hasHit_incBackoff_iff_above
+#print axioms Agd.Tie.TrC09.hasHit_counter_creation
+#print axioms Agd.Tie.TrC09.incBackoff_effects
+#print axioms Agd.Tie.TrC09.subnetKey_family_len
+#print axioms Agd.Tie.TrC09.subnetKey_no_panic_iff
+#print axioms Agd.Tie.TrC09.flatten_replicate_singleton
+#print axioms Agd.Tie.TrC09.wrap64_of_nat
+#print axioms Agd.Tie.TrC09.countResponses_weight
+#print axioms Agd.Tie.TrC09.countResponses_panics_iff
+#print axioms Agd.Tie.TrC09.validateAddr_ok_iff
+#print axioms Agd.Tie.TrC09.isEnabledForProto_tr
+#print axioms Agd.Tie.TrC09.lib_other_proto_passthrough
+#print axioms Agd.Tie.TrC09.lib_port_zero_dropped
+#print axioms Agd.Tie.TrC09.lib_drop_no_response
+#print axioms Agd.Tie.TrC09.lib_allowlisted_served_uncounted
+#print axioms Agd.Tie.TrC09.lib_pass_counted_then_written
+#print axioms Agd.Tie.TrC09.lib_write_only_after_pass
+#print axioms Agd.Tie.TrC09.lib_effect_is_model
+#print axioms Agd.Tie.TrC09.mw_other_proto_passthrough
+#print axioms Agd.Tie.TrC09.mw_profile_first_global_iff
+#print axioms Agd.Tie.TrC09.prof_none_uses_global
+#print axioms Agd.Tie.TrC09.prof_drop_no_response
+#print axioms Agd.Tie.TrC09.prof_useGlobal_defers
+#print axioms Agd.Tie.TrC09.prof_pass_counts_on_profile_limiter
+#print axioms Agd.Tie.TrC09.prof_no_panic_iff
+#print axioms Agd.Tie.TrC09.prof_handoff_is_clean
+#print axioms Agd.Tie.TrC09.globalRatelimiter_always_useGlobal
+#print axioms Agd.Tie.TrC09.profile_check_tr
+#print axioms Agd.Tie.TrC09.profile_check_counts_iff
+#print axioms Agd.Tie.TrC09.profile_countResponses_weight
+#print axioms Agd.Tie.TrC09.glob_drop_no_response
+#print axioms Agd.Tie.TrC09.glob_allowlisted_served_uncounted
+#print axioms Agd.Tie.TrC09.glob_pass_counted_then_written
